@@ -3,6 +3,7 @@
 mod alloc;
 mod bulk;
 mod conn;
+mod csend;
 mod conn_gen;
 mod codec;
 mod frame;
